@@ -897,7 +897,22 @@ func sanitizePanic(msg string) string {
 }
 
 func init() {
-	Checks["X-vars"] = func(c *Ctx) { runVarsCheck(c, true, true, false) }
+	Checks["X-vars"] = func(c *Ctx) {
+		// a scratch check has no GqlProofs/Props file: drop the pseudo-violation RunProofs files for that,
+		// so that the exit status tells whether model and code agree
+		c.mu.Lock()
+		if v, ok := c.viol["no-props-file"]; ok && v.NoFail {
+			delete(c.viol, "no-props-file")
+			for i, s := range c.violOrder {
+				if s == "no-props-file" {
+					c.violOrder = append(c.violOrder[:i], c.violOrder[i+1:]...)
+					break
+				}
+			}
+		}
+		c.mu.Unlock()
+		runVarsCheck(c, true, true, false)
+	}
 	Checks["C14"] = func(c *Ctx) { runVarsCheck(c, true, false, true) }
 	Checks["C15"] = func(c *Ctx) { runVarsCheck(c, false, true, true) }
 }
